@@ -154,12 +154,21 @@ class BSession:
         k = "KList" if self.kind == "list" else "KDict"
         self.emit(f"(BNew {oi} {fi} {k})", "(XOk (VS SNull))", before, {"op": "new", "obj": oi, "file": fi})
 
-    def s_ext(self, fi, v):
+    def s_ext(self, fi, v, keep_mtime=False):
+        try:
+            st0 = os.stat(self.files[fi])
+        except FileNotFoundError:
+            st0 = None
         with open(self.files[fi], "wb") as f:
             f.write(json.dumps(v).encode())
         self.bump += 1
         st = os.stat(self.files[fi])
-        os.utime(self.files[fi], ns=(st.st_atime_ns, st.st_mtime_ns + 10_000_000 * self.bump))
+        if keep_mtime and st0 is not None and st0.st_size != st.st_size:
+            # an outside writer that preserves the modification time (cp -p, rsync -t, coarse timestamps): the size differs
+            os.utime(self.files[fi], ns=(st0.st_atime_ns, st0.st_mtime_ns))
+            self.count("ext-keep-mtime")
+        else:
+            os.utime(self.files[fi], ns=(st.st_atime_ns, st.st_mtime_ns + 10_000_000 * self.bump))
         before = [self.stampf(i) for i in range(len(self.files))]
         self.emit(f"(BExt {fi} {c_val(v)})", "XAny", before, {"op": "ext", "file": fi, "value": jsonable(v)})
         self.ext_seen = True
@@ -493,7 +502,7 @@ class BSession:
                 self.s_ext_init(fi, [1] if self.kind == "list" else {"a": 1})
         for st in script:
             if st[0] == "ext":
-                self.s_ext(st[1], st[2])
+                self.s_ext(st[1], st[2], keep_mtime=(len(st) > 3 and st[3] == "keep-mtime"))
             elif st[0] == "op":
                 self.s_op(st[1], st[2], st[3])
             elif st[0] == "ec":
@@ -598,7 +607,7 @@ class BSession:
                     continue      # these compare element-wise and load once per visited element (covered by K1)
                 self.s_op(oi, path, op)
             elif k < p.get("w_op", 0.55) + p.get("w_ext", 0.0):
-                self.s_ext(self.g.r.randrange(len(self.files)), self.g.container(self.kind, 2))
+                self.s_ext(self.g.r.randrange(len(self.files)), self.g.container(self.kind, 2), keep_mtime=self.g.r.random() < 0.2)
             elif k < p.get("w_op", 0.55) + p.get("w_ext", 0.0) + p.get("w_reorder", 0.0):
                 # outside writer stores the SAME content with another key order (only while the file is not buffered)
                 fi = self.g.r.randrange(len(self.files))
@@ -648,14 +657,7 @@ class BSession:
         return all(ok(a) for a in op[1:])
 
     def reset_class(self):
-        c = self.cls
-        c._buffer.clear()
-        c._buffered_collections.clear()
-        c._CURRENT_BUFFER_SIZE = 0
-        c._BUFFER_CAPACITY = self.default_cap
-        c._buffer_context._count = 0
-        c._buffer_context._original_buffer_capacitys.clear()
-        c._buffer_context._buffer_capacity = None
+        reset_buffer_class(self.cls, self.default_cap)
 
     def coq_case(self):
         return f"({self.strat}, ({self.default_cap})%Z, [" + ";\n ".join(self.steps) + "])"
@@ -729,6 +731,19 @@ def grid_scripts(kind, strat, seed, tier):
             sc.append(("op", 0, [], read_op))
             sc.append(("op", 1, [], read_op))
             yield f"{shape}:{a0}/{e0},{a1}/{e1}", sc
+        # the outside writer preserves the file's modification time (only its size tells)
+        for a1 in ("mod", "none"):
+            sc = list(enters) + [("op", 0, [], mod_op(0))]
+            if a1 == "mod":
+                sc.append(("op", 1, [], mod_op(1)))
+            sc.append(("ext", 0, outv(30), "keep-mtime"))
+            for en in reversed(enters):
+                if en[0] == "ec":
+                    sc.append(("xc",))
+                elif en[0] == "eo":
+                    sc.append(("xo", en[1]))
+            sc += [("op", 0, [], read_op), ("op", 1, [], read_op)]
+            yield f"{shape}:mod/after-keeping-mtime,{a1}/never", sc
         # file 0 does not exist when it enters the buffer and is created by an outside writer before the flush
         for a0 in ("mod", "read"):
             for a1 in ("mod", "none"):
@@ -1060,3 +1075,111 @@ def run_c05_diff(prop, tier, seed):
 
 def op_order_free(op):
     return op[0] in ("DIter", "DKeys", "DValues", "DItems")
+
+
+# ------------------------------------------------------------------------------------------ C05 / C15: faults at the file system
+def run_buf_faults(prop, tier, seed):
+    """(A) one collection's write fails with an OSError at the backend-wide exit (its directory is gone): the exit reports it
+    and every OTHER collection's file still holds its final content (C05), the buffer is empty and the size is 0 (C15).
+    (B) the file cannot be stat'ed when it enters the buffer (a path component is a regular file): the operation raises, the
+    reported size equals what is actually buffered, and it is 0 after the contexts have exited (C15)."""
+    ns = import_library()
+    tmp = tempfile.mkdtemp(prefix="verif_bfault_")
+    res = {"name": "buffer-faults", "model_mismatches": [], "oracle_failures": [], "samples": [], "stats": {}}
+    ev = 0
+
+    def actual_size(cls):
+        tot = 0
+        for e in cls._buffer.values():
+            c = e["contents"]
+            tot += len(c) if isinstance(c, (bytes, bytearray)) else (1 if e.get("modified") else 0)
+        return tot
+    try:
+        for ci, cls in enumerate(buffered_classes(ns)):
+            is_list = cls.__name__.endswith("List")
+            init = [1, {"a": 1}] if is_list else {"a": 1, "n": {"k": 1}}
+            for victim, victim_exists in ((0, True), (1, True), (2, True), (0, False), (1, False), (2, False)):
+                base = os.path.join(tmp, f"A{ci}_{victim}_{victim_exists}")
+                files = []
+                for j in range(3):
+                    d = os.path.join(base, f"d{j}")
+                    os.makedirs(d)
+                    fn = os.path.join(d, "doc.json")
+                    if j != victim or victim_exists:
+                        with open(fn, "w") as fh:
+                            json.dump(init, fh)
+                    files.append(fn)
+                objs = [cls(f) for f in files]
+                raised = None
+                try:
+                    with cls.buffer_backend():
+                        for j, o in enumerate(objs):
+                            (o.append(j) if is_list else o.__setitem__("w", j))
+                        shutil.rmtree(os.path.dirname(files[victim]))
+                except BaseException as e:  # noqa
+                    raised = type(e).__name__
+                ev += 1
+                for j, fn in enumerate(files):
+                    if j == victim:
+                        continue
+                    with open(fn) as fh:
+                        disk = json.load(fh)
+                    want = (init + [j]) if is_list else dict(init, w=j)
+                    if disk != want:
+                        res["oracle_failures"].append({"oracle": "C05-final-fault", "cls": cls.__name__, "victim": victim, "file": j, "raised": raised,
+                                                       "detail": f"the directory of collection {victim} was removed before buffer_backend() exited; collection {j} is healthy "
+                                                                 f"but its file holds {disk} instead of its final content {want} (exit raised {raised})"})
+                if raised is None:
+                    res["oracle_failures"].append({"oracle": "C05-final-fault", "cls": cls.__name__, "victim": victim,
+                                                   "detail": "a collection could not be written at the exit, yet the exit raised nothing"})
+                if cls.get_current_buffer_size() != 0 or cls._buffer:
+                    res["oracle_failures"].append({"oracle": "C15-zero", "cls": cls.__name__, "victim": victim,
+                                                   "detail": f"after the exit (which raised {raised}) size is {cls.get_current_buffer_size()} and {len(cls._buffer)} entries remain"})
+                reset_buffer_class(cls)
+            # (B)
+            for first in ("reset", "clear", "read-then-set"):
+                d = os.path.join(tmp, f"B{ci}_{first}")
+                os.makedirs(d)
+                with open(os.path.join(d, "plain"), "w") as fh:
+                    fh.write("x")
+                good = os.path.join(d, "good.json")
+                with open(good, "w") as fh:
+                    json.dump(init, fh)
+                bad = cls(os.path.join(d, "plain", "doc.json"))      # ENOTDIR on stat
+                ok_ = cls(good)
+                sizes = []
+                try:
+                    with cls.buffer_backend():
+                        ok_()
+                        try:
+                            if first == "reset":
+                                bad.reset([1] if is_list else {"r": 1})
+                            elif first == "clear":
+                                bad.clear()
+                            else:
+                                bad()
+                                (bad.append(1) if is_list else bad.__setitem__("k", 1))
+                        except OSError:
+                            pass
+                        sizes.append((cls.get_current_buffer_size(), actual_size(cls)))
+                        (ok_.append(2) if is_list else ok_.__setitem__("k", 2))
+                        sizes.append((cls.get_current_buffer_size(), actual_size(cls)))
+                except BaseException:  # noqa
+                    pass
+                ev += 1
+                for rep, act in sizes:
+                    if rep != act:
+                        res["oracle_failures"].append({"oracle": "C15-size", "cls": cls.__name__, "first": first,
+                                                       "detail": f"a file that cannot be stat'ed entered the buffer through {first}: reported size {rep}, actually buffered {act}"})
+                        break
+                if cls.get_current_buffer_size() != 0:
+                    res["oracle_failures"].append({"oracle": "C15-zero", "cls": cls.__name__, "first": first,
+                                                   "detail": f"size {cls.get_current_buffer_size()} after all contexts exited (a file that cannot be stat'ed was used inside)"})
+                reset_buffer_class(cls)
+            res["stats"][cls.__name__] = 6
+        res["samples"] = [{"scenario": "A", "classes": 8, "victims": 3}, {"scenario": "B", "first_operation": ["reset", "clear", "read-then-set"]}]
+    finally:
+        shutil.rmtree(tmp, ignore_errors=True)
+    res.update(evaluations=ev, distinct_nontrivial=ev, traces=0,
+               rule="8 buffered classes x (3 victims of a removed directory at the backend-wide exit + 3 first operations on a path that cannot be stat'ed)")
+    return res
